@@ -73,6 +73,7 @@ def orphan_case(seed, rng):
     case['async_delays'] = {'main.t1': long_ + rng.choice([0, 5, 30])}
     progcase.swarm_config(rng, case)
     case['config']['subwf_via_rpc'] = False
+    case['config']['overlap'] = 0.0
     t_pause = to + 1 + rng.random() * (long_ - to - 2)
     case['ops'] = [{'op': 'pause', 'target': 'root',
                     'at_time': round(t_pause, 2)},
@@ -100,6 +101,10 @@ def make_case(seed, tier):
     progcase.swarm_config(rng, case)
     progcase.avoid_known(case, rng, p_keep=0.03)
     case['config']['subwf_via_rpc'] = False
+    # no overlap windows here: a pause request overlapping the handlers of
+    # another engine is the F38 family (see C03 / C06), and every oracle of
+    # this check would report its consequences
+    case['config']['overlap'] = 0.0
     has_pause = add_pause_constructs(rng, case) \
         if rng.random() < 0.3 else False
     ops = []
